@@ -514,6 +514,18 @@ func c18Lang(ctx *core.Ctx, idx int) core.Result {
 		for _, d := range []int64{0, 1, 40, 43, 130, int64(r.Range(2, 300))} {
 			stmts = append(stmts, ast.Index{X: icall("zat", il(d)), I: il(0)}, ast.Unary{Op: "#", X: toa(icall("zat", il(d)))})
 		}
+	} else if idx%12 == 7 {
+		// recursion depth is limited only by memory: 10^4..3*10^4 frames, locals kept across the call
+		kind = "very-deep"
+		d := int64(r.Range(10000, 30000))
+		stmts = []ast.Node{
+			ast.Assign{Name: "zsum", Value: ast.FuncLit{Params: []string{"n"}, Body: ast.If{Cond: ast.Binary{Op: "<=", L: nm("n"), R: il(0)}, Then: il(0), Else: ast.Block{Stmts: []ast.Node{
+				ast.Assign{Name: "mine", Value: ast.Binary{Op: "*", L: nm("n"), R: il(2)}},
+				ast.Assign{Name: "below", Value: icall("zsum", ast.Binary{Op: "-", L: nm("n"), R: il(1)})},
+				ast.Binary{Op: "+", L: ast.Binary{Op: "-", L: nm("mine"), R: nm("n")}, R: nm("below")}}}}}},
+			icall("zsum", il(d)),
+			icall("zsum", il(d/2)),
+		}
 	} else {
 		stmts = gen.ScopeProgram(r)
 	}
@@ -535,6 +547,6 @@ func init() {
 			{Name: "tight", Count: countFn(12000, 1200000), Run: func(c *core.Ctx, i int) core.Result { return c18History(c, i, true) }},
 			{Name: "lang", Count: countFn(2400, 240000), Run: c18Lang},
 		},
-		Floors: []core.Floor{{Key: "history_ops", Quick: 2000000, Thor: 200000000}, {Key: "grow_events", Quick: 20000, Thor: 2000000}, {Key: "op_clone_reuse", Quick: 5000, Thor: 500000}, {Key: "op_alias", Quick: 50000, Thor: 5000000}, {Key: "language_level_statements", Quick: 10000, Thor: 1000000}, {Key: "tag:lang:", Quick: 2, Thor: 2}, {Key: "nontrivial", Quick: 15000, Thor: 1500000}},
+		Floors: []core.Floor{{Key: "history_ops", Quick: 2000000, Thor: 200000000}, {Key: "grow_events", Quick: 20000, Thor: 2000000}, {Key: "op_clone_reuse", Quick: 5000, Thor: 500000}, {Key: "op_alias", Quick: 50000, Thor: 5000000}, {Key: "language_level_statements", Quick: 10000, Thor: 1000000}, {Key: "tag:lang:", Quick: 3, Thor: 3}, {Key: "nontrivial", Quick: 15000, Thor: 1500000}},
 	})
 }
